@@ -52,6 +52,7 @@ func spaceBytes6(ctx *bex.Ctx)     { explore(ctx, famBytes6) }     // (a) thorou
 
 func spaceUnicode(ctx *bex.Ctx) { explore(ctx, famUnicode) } // (d) Unicode classes
 func spaceFolds(ctx *bex.Ctx)   { explore(ctx, famFolds) }   // (e) failing constant folds
+func spaceRunaway(ctx *bex.Ctx) { explore(ctx, famRunaway) } // (f) constant recursion without end
 
 func run(ctx *bex.Ctx) {
 	if runAsChild(ctx) { // a child process executes the index range named in its environment
@@ -70,6 +71,7 @@ func run(ctx *bex.Ctx) {
 		spaceDeepTable,
 		spaceUnicode,
 		spaceFolds,
+		spaceRunaway,
 		spaceBytes,
 		spaceTokens,
 		spacePadded,
